@@ -72,6 +72,8 @@ def impl_items(text):
     try:
         m = inst.instantiate_namespace(parser.Module.parseString(text))
         return ('ok', dump.items(m))
+    except dump.DumpError:
+        raise      # the tree no longer has the shape the model's tree type assumes: the tie is broken, never skipped
     except Exception as e:
         return (common.classify_exc(e), str(e)[:200])
 
